@@ -74,10 +74,13 @@ func runRegKey(c *core.Ctx) {
 		idx := 0
 		an.Instrs(fn, func(in ssa.Instruction) {
 			a, ok := in.(*ssa.Alloc)
-			if !ok || !isNamedRoot(a.Type(), "eventCacheDeletedEventKey") || a.Comment != "complit" {
+			if !ok || !isNamedRoot(a.Type(), "eventCacheDeletedEventKey") {
 				return
 			}
 			fs := an.StructLitFields(a)
+			if len(fs) == 0 {
+				return // a by-value parameter copy, not a literal
+			}
 			pk, has := fs["Pubkey"]
 			n++
 			idx++
